@@ -18,6 +18,13 @@ DEFS = [
     # same state names as above with other behaviour: an execution must run the definition current at its start
     {"StartAt": "P", "States": {"P": {"Type": "Pass", "Result": {"version": 2}, "Next": "S"}, "S": {"Type": "Succeed"}}},
     {"StartAt": "P", "States": {"P": {"Type": "Fail", "Error": "E.Redefined", "Cause": "now fails"}}},
+    # ... also for the states INSIDE a fan-out (same branch state names, other results)
+    {"StartAt": "P", "States": {"P": {"Type": "Parallel", "End": True, "Branches": [
+        {"StartAt": "B", "States": {"B": {"Type": "Pass", "Result": {"branch": "v1"}, "End": True}}},
+        {"StartAt": "C", "States": {"C": {"Type": "Pass", "Result": 1, "End": True}}}]}}},
+    {"StartAt": "P", "States": {"P": {"Type": "Parallel", "End": True, "Branches": [
+        {"StartAt": "B", "States": {"B": {"Type": "Pass", "Result": {"branch": "v2"}, "End": True}}},
+        {"StartAt": "C", "States": {"C": {"Type": "Pass", "Result": 2, "End": True}}}]}}},
 ]
 BAD_DEFS = ["", "{not json", "[1, 2]", None]
 TYPED_BAD_DEFS = [7, {"StartAt": "P", "States": {"P": {"Type": "Pass", "End": True}}}, ["x"]]
